@@ -39,3 +39,39 @@ pub fn vx_dyn__handle_message<A: Actor>(
     ensures
         /*@HM_POST*/
 { unimplemented!() }
+
+// ---------------------------------------------------------------- rule R11: accessors of the crate's statics
+#[verifier::external_body]
+pub fn vx_static__ACTOR_IDS() -> (r: &'static AtomicU64) ensures r.cell() == cell_ACTOR_IDS() { unimplemented!() }
+#[verifier::external_body]
+pub fn vx_static__DEAD_LETTER_COUNT() -> (r: &'static AtomicU64) ensures r.cell() == cell_DEAD_LETTER_COUNT() { unimplemented!() }
+#[verifier::external_body]
+pub fn vx_static__CONFIGURED_DEFAULT_MAILBOX_CAPACITY() -> (r: &'static OnceLock<usize>) ensures r.cell() == cell_DEFAULT_CAPACITY() { unimplemented!() }
+
+/// rule R3: the one log line that is an observable effect — the structured dead-letter warning
+#[verifier::external_body]
+pub fn vx_emit_dead_letter(actor_id: u64, actor_type: &'static str, message_type: &'static str,
+                           reason: DeadLetterReason, operation: &'static str, w: &mut World)
+    ensures
+        final(w).log() == old(w).log().push(Eff::DeadLetterLog(actor_id, actor_type@, message_type@, reason, operation@)),
+        same_ambient(*old(w), *final(w)),
+{ }
+
+// ---------------------------------------------------------------- NOT UNDER CONTRACT (listed in the evidence)
+impl<T: Actor> ActorRef<T> {
+    /// std::thread::spawn + nested runtime + std mpsc: outside Verus.  Only the fact of the call is logged.
+    #[verifier::external_body]
+    pub fn blocking_tell_with_timeout_impl<M>(&self, msg: M, timeout: Duration, w: &mut World) -> (r: Result<()>)
+        where M: Send + 'static, T: Message<M>,
+        ensures
+            final(w).log() == old(w).log().push(Eff::Opaque(OpaqueTag::BlockingTellTimeout { pid: msg_id(msg), d: timeout, chan: self.mbx_chan() })),
+            same_ambient(*old(w), *final(w)),
+    { unimplemented!() }
+    #[verifier::external_body]
+    pub fn blocking_ask_with_timeout_impl<M>(&self, msg: M, timeout: Duration, w: &mut World) -> (r: Result<T::Reply>)
+        where T: Message<M>, M: Send + 'static, T::Reply: Send + 'static,
+        ensures
+            final(w).log() == old(w).log().push(Eff::Opaque(OpaqueTag::BlockingAskTimeout { pid: msg_id(msg), d: timeout, chan: self.mbx_chan() })),
+            same_ambient(*old(w), *final(w)),
+    { unimplemented!() }
+}
